@@ -24,7 +24,7 @@ partial def toTree : Sexp → Option Tree
 /-- rules reported "not supported" by a method of the ACTIVE visitor (not BaseVisitor's, e.g. AtomVisitor.EnterOC_ShortestPathPattern):
 found by walking the tree with the listener model of C08 under the default context (Generated.Visitors.unsupMethods) -/
 def visitorUnsup (t : Tree) : List Nat :=
-  match Driver.C08.twalk Dawgs.C08.Inst.TD t (Dawgs.C08.Inst.TD.init, {}) with
+  match Driver.C08.twalk Dawgs.C08.Inst.TD 0 t (Dawgs.C08.Inst.TD.init, {}) with
   | .ok (_, o) => o.vunsup
   | .error _ => []
 
